@@ -2235,6 +2235,10 @@ func (vm *Thread) callNativeMethod(method *NativeMethod, argCount int) (err valu
 func (vm *Thread) callBytecodeFunctionTCO(method *BytecodeFunction, argCount int) {
 	vm.populateMissingParametersOnStack(method.parameterCount, argCount)
 
+	// the frame is about to be reused: variables of the caller that
+	// have been captured by closures must move out of it first
+	vm.opCloseUpvalues(vm.fp)
+
 	localCount := method.parameterCount + 1
 	for i := range localCount {
 		*vm.fpAdd(i) = *vm.spAdd(-localCount + i)
